@@ -128,7 +128,37 @@ UNIT = dict(
     dict(id='ctor2', file=F, sig=r'(?<!explicit )left_right\(T left, T right\)', ctor=True,
          c_sig='static void lr_ctor2(struct left_right* self, struct T left, struct T right)', must_fire={'ctor_init': 2}),
   ],
-  runs=[],
-  obligations={},
+  runs=[
+    dict(id='indicator', entry='h_indicator', cls='unbounded'),
+    dict(id='guard', entry='h_guard', cls='unbounded'),
+    dict(id='ctor', entry='h_ctor', cls='unbounded'),
+    dict(id='wait', entry='h_wait', cls='unbounded', note='SEQ: returns only from states whose counter is 0'),
+    dict(id='wait_int', entry='h_wait', mode='INT', cls='unbounded', note='spin loop cut (invariant true; the environment is closed under repetition, run env_closed)'),
+    dict(id='toggle', entry='h_toggle', cls='unbounded'),
+    dict(id='toggle_int', entry='h_toggle', mode='INT', cls='unbounded'),
+    dict(id='update', entry='h_update', cls='unbounded'),
+    dict(id='update_int', entry='h_update', mode='INT', cls='unbounded',
+         note='one arbitrary tracked reader following the contract of lr.read.bracket + arbitrarily many other readers; the second writer is excluded by the mutex'),
+    dict(id='update2_int', entry='h_update2', mode='INT', cls='unbounded', note='two back-to-back updates with the tracked reader running throughout'),
+    dict(id='read', entry='h_read_seq', cls='unbounded'),
+    dict(id='read_int', entry='h_read', mode='INT', cls='unbounded', note='environment: writers and other readers rewrite every shared word at every step'),
+    dict(id='read_solo', entry='h_read', mode='SOLO', unwind=1, unwind_obligation='lr.read.wait_free', cls='unbounded',
+         note='read() and everything it calls contain no loop: unwinding bound 1 with unwinding assertions'),
+    dict(id='env_closed', entry='h_env_closed', cls='unbounded', note='model self-check for the INT environment'),
+  ],
+  obligations={
+    'lr.update.order': dict(deciding=True, text='update applies the functor exactly twice: first to the instance _lr_indicator did not select at entry, then stores the indicator selecting that instance, then toggle_version_and_wait runs and returns, then the functor is applied to the other instance; each instance receives the update exactly once (and consecutive updates in the same order); _lr_indicator == _version_index again on exit'),
+    'lr.update.mutex': dict(deciding=True, text='the writer mutex is locked before anything else, held at every functor application and unlocked exactly once on every exit, including when the functor throws'),
+    'lr.update.exclusion': dict(deciding=True, text='[INT] while the update functor runs on an instance, a reader that follows the read() contract is never inside its functor on that instance; on exit every reader inside its functor reads the instance the indicator selects'),
+    'lr.toggle.order': dict(deciding=True, text='toggle_version_and_wait: counter[next version] observed empty, then the version index is stored (flipped exactly once), then counter[previous version] observed empty; nothing else is written'),
+    'lr.toggle.drains': dict(deciding=True, text='[INT] when toggle_version_and_wait returns, a reader that is inside its functor loaded _lr_indicator after the call started'),
+    'lr.wait.spins_until_empty': dict(deciding=True, text='wait_for_readers(idx) returns only after empty() of indicator idx returned true; it reads no other counter and writes nothing'),
+    'lr.read.bracket': dict(deciding=True, text='read: version load, then arrive on the indicator that version selects, then load of _lr_indicator, then the functor on the instance that load selected, then depart on the same indicator - on every exit including a throwing functor; returns the functor result; writes nothing else'),
+    'lr.indicator.counts': dict(deciding=True, text='arrive/depart are +1/-1 on the indicator\'s own counter, empty() is counter == 0, get_read_indicator(i) is indicator i'),
+    'lr.sync.seq_cst': dict(deciding=True, text='sync: the sites named by the numbered comments are at least as strong as stated: (1) indicator load seq_cst, (2)(3) indicator store seq_cst, (4) arrive seq_cst RMW, (5) depart release-or-stronger RMW, (6) empty() load seq_cst'),
+    'lr.read.wait_free': dict(deciding=True, text='[SOLO] read has no loop: it finishes in exactly five steps under any interference'),
+    'lr.ctor.init': dict(deciding=True, text='the constructors establish the idle invariant: indicator == version index, both counters 0, mutex free, both instances initialised from the source(s)'),
+  },
+  loop_obligation={'WAIT': 'lr.wait.spins_until_empty'},
   canaries=[],
 )
